@@ -164,6 +164,8 @@ class PathTable:
             elif isinstance(t, (ast.Tuple, ast.List)):
                 if isinstance(st.value, (ast.Tuple, ast.List)) and len(st.value.elts) == len(t.elts):
                     vals = [T.tr(x) for x in st.value.elts]
+                elif isinstance(v, sp.Tuple) and len(v) == len(t.elts):
+                    vals = list(v)
                 else:
                     vals = [sp.Function("getitem")(v, sp.Integer(i)) for i in range(len(t.elts))]
                 for e, vv in zip(t.elts, vals):
